@@ -515,21 +515,41 @@ def rule_list_semantics(ctx: Ctx) -> RuleResult:
     from ..rules.defuse import DefUse
 
     p = ctx.p
-    rr = RuleResult("KIND", "C16.10", "extend / slice assignment materialise their iterable; sort() re-finds the focus by identity; an empty list's placeholder index is not shifted", floor=4)
+    rr = RuleResult("KIND", "C16.10", "extend / slice assignment materialise their iterable and pass that copy on to list; sort() re-finds the focus by identity; an empty list's placeholder index is not shifted; every computed focus returned is clamped to the new length", floor=8)
     mfl = p.cls(f"{ML}.MonitoredFocusList")
     # (a)
     for name in ("extend", "__setitem__"):
         fo = mfl.methods[name]
         du = DefUse(fo)
         prm = fo.params[-1]
-        adj = [c for c in fo.own_nodes() if isinstance(c, ast.Call) and isinstance(c.func, ast.Attribute) and c.func.attr == "_adjust_focus_on_contents_modified" and len(c.args) == 2 and isinstance(c.args[1], ast.Name) and c.args[1].id == prm]
+        adj = [c for c in fo.own_nodes() if isinstance(c, ast.Call) and isinstance(c.func, ast.Attribute) and c.func.attr == "_adjust_focus_on_contents_modified" and len(c.args) == 2 and isinstance(c.args[1], ast.Name)]
+
+        def materialised(nm, at):
+            defs = du.reaching(nm, at)
+            return bool(defs) and all(isinstance(v, ast.Call) and isinstance(v.func, ast.Name) and v.func.id in ("list", "tuple") for v, how, dn in defs if how not in ("param", "parameter")) and not any(how in ("param", "parameter") for v, how, dn in defs)
+
         for c in adj:
             at = du.node_of(c)
-            defs = du.reaching(prm, at)
-            ok = bool(defs) and all(isinstance(v, ast.Call) and isinstance(v.func, ast.Name) and v.func.id in ("list", "tuple") for v, how, dn in defs if how != "param") and any(how != "param" for v, how, dn in defs) and not any(how == "param" for v, how, dn in defs)
+            ok = materialised(c.args[1].id, at)
             rr.inst(f"{name}: iterable materialised", True, {"mutator": name, "materialised": ok})
             if not ok:
-                rr.add(finding("KIND", fo, c, f"{name}() hands its argument `{prm}` to _adjust_focus_on_contents_modified (which takes len() of it) as it came in: list accepts any iterable here, a generator or iterator raises TypeError", construct=f"{name}: iterable not materialised"))
+                rr.add(finding("KIND", fo, c, f"{name}() hands its argument `{c.args[1].id}` to _adjust_focus_on_contents_modified (which takes len() of it) as it came in: list accepts any iterable here, a generator or iterator raises TypeError", construct=f"{name}: iterable not materialised"))
+        # ... and what goes into the list afterwards is that materialised copy, not the (possibly one-pass, now
+        # exhausted) iterable the caller gave: on the branch where the copy was taken, super().<mutator>() gets it
+        sup = [c for c in fo.own_nodes() if isinstance(c, ast.Call) and isinstance(c.func, ast.Attribute) and c.func.attr == name and isinstance(c.func.value, ast.Call) and isinstance(c.func.value.func, ast.Name) and c.func.value.func.id == "super" and c.args and isinstance(c.args[-1], ast.Name)]
+        for c in sup:
+            at = du.node_of(c)
+            if at is None or not adj:
+                continue
+            # only super calls that follow a focus computation from a materialised copy
+            before = [a for a in adj if du.node_of(a) is not None and at in du.cfg.reachable([du.node_of(a)])]
+            if not before:
+                continue
+            # the copy the focus was computed from is the very variable handed on
+            ok = all(a.args[1].id == c.args[-1].id for a in before)
+            rr.inst(f"{name}: the list receives the materialised copy", True, {"mutator": name, "call": norm(c, 50), "materialised": ok})
+            if not ok:
+                rr.add(finding("KIND", fo, c, f"`{norm(c, 50)}` passes `{c.args[-1].id}` on to list after the focus was computed from a list(...) copy of the argument: a one-pass iterator (generator, map, iter()) was consumed by that copy, so the list receives nothing although the focus arithmetic and the modified callback assumed the new items", construct=f"{name}: list call gets the raw iterable"))
     # (b)
     so = mfl.methods["sort"]
     stores = [n for n in so.own_nodes() if isinstance(n, ast.Assign) and any(isinstance(t, ast.Attribute) and t.attr == "focus" for t in n.targets)]
@@ -546,6 +566,28 @@ def rule_list_semantics(ctx: Ctx) -> RuleResult:
     ok = bool(empties) and all(any(r_ not in cfg.reachable_from_edges([(t, "T")]) and cfg.dominated(r_, [t]) for t in empties) for r_ in reads)
     if not ok:
         rr.add(finding("GUARD", ad, ad.node, "_adjust_focus_on_contents_modified shifts the stored index also when the list is empty: that index (0) is a placeholder, so filling an empty list with extend() or slice assignment leaves the focus on the *last* new item while += gives the first", construct="empty list not handled before shifting the stored index"))
+    # (d) every computed index the function returns is clamped to the last item of the list *after* the change:
+    # min(<index>, len(self) + added - removed - 1) - at the return or at every definition reaching it.  The validate
+    # callback's answer and the constant 0 of the empty list are returned as they are.
+    dua = DefUse(ad)
+
+    def clamped(e, at, depth=0):
+        if isinstance(e, ast.Constant):
+            return True
+        if isinstance(e, ast.Call) and isinstance(e.func, ast.Name) and e.func.id == "min" and any("len(" in ast.unparse(a) for a in e.args):
+            return True
+        if isinstance(e, ast.Call) and isinstance(e.func, ast.Attribute) and e.func.attr == "_validate_contents_modified":
+            return True
+        if isinstance(e, ast.Name) and depth < 4 and at is not None:
+            defs = dua.reaching(e.id, at)
+            return bool(defs) and all(isinstance(v, ast.AST) and how == "assign" and clamped(v, dn, depth + 1) for v, how, dn in defs)
+        return False
+
+    for r_ in [n for n in dua.cfg.nodes if n.kind == "return" and n.ast.value is not None]:
+        okc = clamped(r_.ast.value, r_)
+        rr.inst(f"return clamped: {norm(r_.ast, 50)}", True, {"return": norm(r_.ast, 70), "clamped_to_the_new_length": okc})
+        if not okc:
+            rr.add(finding("BOUND", ad, r_.ast, f"`{norm(r_.ast, 60)}` returns a computed focus index that is not clamped with min(.., len(self) + added - removed - 1) on every way to it: when the focused item is the last one and an extended slice (del ml[::2], del ml[-1::2]) removes it, the index points behind the shortened list - the focus setter raises IndexError after the list was already changed", construct="computed focus returned unclamped"))
     return rr
 
 
@@ -673,6 +715,9 @@ def run(ctx: Ctx):
 
 _F = "urwid/widget/monitored_list.py"
 MUTANTS = [
+    Mut("focus-clamp-only-for-plain-slices", "urwid/widget/monitored_list.py", "MonitoredFocusList._adjust_focus_on_contents_modified", "        return min(focus, len(self) + num_new_items - num_removed - 1)\n", "        return focus\n", "BOUND|widget.monitored_list.MonitoredFocusList._adjust_focus_on_contents_modified|computed focus returned unclamped"),
+    Mut("twin-focus-clamp-assigned-then-returned", "urwid/widget/monitored_list.py", "MonitoredFocusList._adjust_focus_on_contents_modified", "        return min(focus, len(self) + num_new_items - num_removed - 1)\n", "        focus = min(focus, len(self) + num_new_items - num_removed - 1)\n        return focus\n", twin=True),
+    Mut("extend-passes-consumed-iterator", "urwid/widget/monitored_list.py", "MonitoredFocusList.extend", "        items = list(items)  # any iterable may be given, also a one-pass iterator\n        focus = self._adjust_focus_on_contents_modified(slice(len(self), len(self)), items)", "        new_items = list(items)  # any iterable may be given, also a one-pass iterator\n        focus = self._adjust_focus_on_contents_modified(slice(len(self), len(self)), new_items)", "KIND|widget.monitored_list.MonitoredFocusList.extend|extend: list call gets the raw iterable"),
     Mut("shrinking-replacement-treated-as-in-place", _F, "MonitoredFocusList._adjust_focus_on_contents_modified", "if start + num_new_items <= focus < stop:", "if start <= focus < stop and not num_new_items:", "BOUND|widget.monitored_list.MonitoredFocusList._adjust_focus_on_contents_modified|removed-range"),
     Mut("twin-removed-range-two-comparisons", _F, "MonitoredFocusList._adjust_focus_on_contents_modified", "if start + num_new_items <= focus < stop:", "if focus >= start + num_new_items and focus < stop:", twin=True),
     Mut("delitem-raw-index-arithmetic", _F, "MonitoredFocusList.__delitem__", "            y = operator.index(y)  # like list: any object with __index__\n", "", "KIND|widget.monitored_list.MonitoredFocusList.__delitem__"),
